@@ -23,9 +23,5 @@ import (
 )
 
 func HandleAuthIp(c *gin.Context) {
-	var ips []string
-	for kv := range authip.IpMap.Iter() {
-		ips = append(ips, kv.Key.(string))
-	}
-	c.JSON(http.StatusOK, ips)
+	c.JSON(http.StatusOK, authip.IpMap.List())
 }
